@@ -65,7 +65,7 @@ var interpPkgs = map[string]bool{
 	"internal/bytealg": true, "internal/abi": true, "sync/atomic": true, "sync": true, "unsafe": true,
 	"github.com/go-jose/go-jose/v4/jwt": true,
 	"github.com/m7913d/go-ntlm/ntlm":    true,
-	"net/textproto": true, "github.com/google/uuid": true, "internal/godebug": false,
+	"net/textproto": true, "github.com/google/uuid": true, "github.com/go-jose/go-jose/v4": true, "internal/godebug": false,
 }
 
 var initPkgs = map[string]bool{
